@@ -377,6 +377,21 @@ fn c11_pass(sink: &mut Sink, rng: &mut Rng, thorough: bool) {
         }
       }
     }
+    // 1 in 6: the space part of the first element reaches the LAST cell of the space domain (a range token ending
+    // on the last cell of its depth: base cells 9-11), and 1 in 12 the time part covers the WHOLE time domain
+    if k % 6 == 3 {
+      if let Some(first) = m.first_mut() {
+        let hi = 12u64 << 58;
+        first.1.retain(|r| r.end < 9 * sunit());
+        first.1.push(9 * sunit()..hi);
+        sink.count("st-moc:space-reaches-domain-end");
+      }
+    }
+    if k % 12 == 7 {
+      let sp = m.first().map(|e| e.1.clone()).unwrap_or(vec![0..sunit()]);
+      m = vec![(vec![0..(1u64 << 62)], sp)];
+      sink.count("st-moc:whole-time-domain");
+    }
     let txt = st_txt(&m);
     // 1 in 4: the declared depths are deeper than every element's own depth (deepest levels unoccupied): only the
     // depth-only last element / the header keywords carry them
